@@ -22,7 +22,8 @@ R.contract("PeerConnection.remove_out_bytes", params={"self": "PeerConnection", 
            modifies=["self._write_buffer"], props=["C15"])
 R.contract("PeerConnection.work_write_queue", params={"self": "PeerConnection", "_thread": "StoppableThread"},
            requires=[("lock-free-at-start", "not self.write_lock.g_held")],
-           raises=[], ghost_modifies=["self._write_msg_queue.g_taken", "*Message.g_enc", "self.g_removed", "self.write_lock.g_held"],
+           raises=[], ghost_modifies=["self._write_msg_queue.g_taken", "*Message.g_enc", "self.g_removed", "self.write_lock.g_held",
+                                      "self.g_attn"],
            modifies=["self._write_buffer", "*MessageHeader.length", "*Avp._avps", "*list:Any"], props=["C15", "C14", "C07"],
            note="writer thread: raises nothing; each iteration appends exactly the encoding of the dequeued message, or nothing")
 R.contract("PeerConnection.demand_attention#may-fail", trusted=True, params={"self": "PeerConnection"},
@@ -47,7 +48,7 @@ R.loop("PeerConnection.work_write_queue", 0,
               "items(self._write_msg_queue.g_put) == prev(items(self._write_msg_queue.g_put))")],
        local_kinds={"new_msg": "Opt[Message]"},
        modifies=["self._write_buffer", "self.g_removed", "self._write_msg_queue.g_taken", "*Message.g_enc", "self.write_lock.g_held",
-                 "*MessageHeader.length", "*Avp._avps", "*list:Any"])
+                 "*MessageHeader.length", "*Avp._avps", "*list:Any", "self.g_attn"])
 
 # ---- the send branch of the I/O loop, extracted mechanically as a slice of Node._handle_connections ------------
 R.model("Socket", fields={"g_sent": "bytes"})
